@@ -28,6 +28,13 @@ TREE = {
 }
 for k, (d, w) in TREE.items():
     known("C01", k, d, w)
+    if k.startswith(("string-kind", "fstring-")):
+        known("C06", k, d, w)
+        known("C07", k, d, w)
+known("C07", "fstring-format-spec-escape-kept-verbatim", "escape sequences inside a format spec are kept verbatim (`f'{x:\\n}'` has the two-character spec backslash-n; the reference decodes it)", "f'{x:\\n}'")
+known("C07", "fstring-field-bare-tuple-range-includes-braces", "an unparenthesised tuple in a replacement field gets a range that includes the field's opening brace and the character after the tuple (it equals the reference's extent, which has the same quirk, but is not the expression's own text)", "f'{a, b}'")
+for k_ in ("fstring-crlf-shifts-inner-ranges", "genexp-sole-argument-excludes-call-parens", "namedexpr-ends-before-closing-parens-of-value", "fstring-concat-piece-own-token-range"):
+    known("C07", k_, "(see C02) " + next(f["description"] for f in []) if False else "see the C02 finding of the same name; inside replacement fields it also breaks the own-text rule of C07", "")
 
 # ---------------------------------------------------------------- C02
 known("C02", "argwithdefault-range-excludes-default", "the range of a parameter-with-default node ends before its default expression, so it does not enclose it (all-nodes-with-ranges)", "def f(a=1): pass")
